@@ -423,8 +423,11 @@ impl RefCountTable {
 	}
 
 	pub fn drop_file(self) -> Result<()> {
-		drop(self.map);
-		try_io!(std::fs::remove_file(self.path.as_path()));
+		// A table that never received an entry has no file (it is created on first write).
+		let existed = self.map.write().take().is_some();
+		if existed {
+			try_io!(std::fs::remove_file(self.path.as_path()));
+		}
 		log::debug!(target: "parity-db", "{}: Dropped ref count table", self.id);
 		Ok(())
 	}
